@@ -143,6 +143,7 @@ static void runScenario(const std::string& prop, size_t idx, const Scenario& sc,
   vp::Explorer ex;
   ex.budget[K_DEV] = sc.k + b.dev; ex.budget[K_CHUNK] = sc.c + b.chunk; ex.budget[K_REQ] = sc.r;
   ex.useHash = replay == nullptr;
+  ex.trackCycles = true;
   ex.collectOnly = !b.hash;
   if (sc.unbounded) ex.hashBudgetMask = 1u << K_REQ;  // A-mode: only the fault budget is a real bound
   auto body = [&](vp::Explorer& e) {
@@ -159,6 +160,7 @@ static void runScenario(const std::string& prop, size_t idx, const Scenario& sc,
     if (w.leaked != 0 && prop == "C04") sink.add("C04/leaked-request", std::to_string(w.leaked) + " self-deleting request object(s) were neither deleted by the handler nor left in its queues");
     R.transitions += w.reads;
     if (w.capHit) R.cap("step cap hit in scenario " + sc.name);
+    if (e.cycle) { R.count("runs_ending_in_a_state_cycle", 1); if (getenv("VERIF_VERBOSE")) fprintf(stderr, "cycle: %s\n", scenarioCase(prop, idx, e).c_str()); }
     if (replay != nullptr) {
       printf("scenario %zu: %s\n", idx, sc.name.c_str());
       for (auto& l : w.log) printf("  %s\n", l.c_str());
@@ -475,8 +477,12 @@ static std::vector<Scenario> scenariosC15(bool thorough, const vp::Args& A) {
 static std::vector<Scenario> scenariosC04(bool thorough, const vp::Args& A) {
   std::vector<Scenario> v;
   for (int enh = 0; enh < 2; enh++) {
-    for (int shape = 0; shape < (thorough ? 8 : 6); shape++) {
+    for (int shape = 0; shape < 10; shape++) {
+      if (!thorough && (shape == 6 || shape == 7)) continue;
       for (int retr = 0; retr < 2; retr++) {
+#ifndef BUSMC_WITH_POLL
+        if (shape >= 8) continue;
+#endif
         Scenario s;
         s.enhanced = enh;
         s.busLostRetries = retr ? 0 : 2;
@@ -501,6 +507,9 @@ static std::vector<Scenario> scenariosC04(bool thorough, const vp::Args& A) {
           case 5: add(m2, Bytes{}, 1, 0, false, 0); add(m3, Bytes{}, 0, 0, false, 0); add(m1, Bytes{0x01, 0x5a}, 1, 1, false, 0); break;
           case 6: add(m1, Bytes{0x01, 0x5a}, 0, 0, true, 1); add(m2, Bytes{}, 1, 0, true, 0); add(m3, Bytes{}, 1, 1, true, 0); break;
           case 7: add(m1, Bytes{0x01, 0x5a}, 0, 1, false, 2); break;
+          // the real PollRequest of bushandler.cpp on a two-part chained message (both parts go to 08 and get the same answer)
+          case 8: add(Bytes{0x31, 0x08, 0xb5, 0x09, 0x03, 0x0d, 0x01, 0x00}, Bytes{0x02, 0x11, 0x22}, 2, 0, false, 0); break;
+          case 9: add(Bytes{0x31, 0x08, 0xb5, 0x09, 0x03, 0x0d, 0x01, 0x00}, Bytes{0x02, 0x11, 0x22}, 2, 0, true, 0); add(m2, Bytes{}, 1, 0, false, 0); break;
         }
         s.k = 2;
         if (thorough && shape <= 3) s.k = 3;
